@@ -71,6 +71,18 @@ Definition truncate_utf8 (bs : bytes) (maxb : N) : bytes * bool * N :=
   if nlen bs <=? maxb then (lossy bs, false, nlen bs)
   else let e := trim_valid (N.to_nat maxb) bs in (lossy (firstn e bs), true, N.of_nat e).
 
+(* the automaton's state after the bytes (outputs ignored) *)
+Fixpoint ufinal (st : ust) (bs : bytes) : ust :=
+  match bs with
+  | [] => st
+  | b :: r => let '(_, _, st') := ustep st b in ufinal st' r
+  end.
+
+(* incomplete_utf8_tail (fix of S12/S19; ripd tasks/logs.rs, rip-tools builtins/mod.rs): length of a
+   trailing sequence that is valid so far but incomplete *)
+Definition incomplete_tail (bs : bytes) : N :=
+  match ufinal UIdle bs with UIdle => 0 | UPend acc _ _ _ => nlen acc end.
+
 (* ================= TaskLogWriter ================= *)
 Record lw := { lw_cap : N; lw_total : N; lw_nstored : N; lw_trunc : bool; lw_file : bytes }.
 Record apinfo := { ap_off : N; ap_bytes : N; ap_total : N; ap_stored : N; ap_trunc : bool }.
@@ -98,12 +110,25 @@ Fixpoint lw_run (w : lw) (chunks : list bytes) : lw * list apinfo :=
 (* ================= range reads ================= *)
 Record page := { pg_content : bytes; pg_bytes : N; pg_total : N; pg_trunc : bool }.
 
-(* the code as it is today: one read of at most max_bytes from offset, decoded lossily *)
-Definition read_range (file : bytes) (offset maxb : N) : page :=
+(* the code before the repair of S12: one read of at most max_bytes from offset, decoded lossily *)
+Definition read_range_unfixed (file : bytes) (offset maxb : N) : page :=
   let buf := take maxb (drop offset file) in
   let '(content, utr, used) := truncate_utf8 buf maxb in
   {| pg_content := content; pg_bytes := used; pg_total := nlen file;
      pg_trunc := utr || (offset + nlen buf <? nlen file) |}.
+
+(* when more bytes follow, a page does not end inside a character (unless the whole page is one) *)
+Definition trim_page (buf : bytes) (more : bool) : bytes :=
+  if more then
+    let t := incomplete_tail buf in
+    if t <? nlen buf then take (nlen buf - t) buf else buf
+  else buf.
+
+Definition read_range (file : bytes) (offset maxb : N) : page :=
+  let buf := take maxb (drop offset file) in
+  let more := offset + nlen buf <? nlen file in
+  let '(content, utr, used) := truncate_utf8 (trim_page buf more) maxb in
+  {| pg_content := content; pg_bytes := used; pg_total := nlen file; pg_trunc := utr || more |}.
 
 (* a client paging through the artifact: next offset = offset + reported bytes; stops at the first
    page that is not truncated or makes no progress; `fuel` bounds the walk *)
@@ -120,13 +145,24 @@ Fixpoint page_walk (rd : bytes -> N -> N -> page) (fuel : nat) (file : bytes) (o
 Definition OUTPUT_EVENT_MAX_BYTES : N := 8192.
 Record dframe := { df_preview : bytes; df_info : apinfo }.
 
-Definition pump_step (plimit : N) (st : lw * list dframe) (chunk : bytes) : lw * list dframe :=
+(* before the repair of S17: `if preview.is_empty() { continue; }` *)
+Definition pump_step_unfixed (plimit : N) (st : lw * list dframe) (chunk : bytes) : lw * list dframe :=
   let '(w1, i) := lw_append (fst st) chunk in
   let '(pv, _, _) := truncate_utf8 chunk (N.min plimit OUTPUT_EVENT_MAX_BYTES) in
   match pv with
-  | [] => (w1, snd st)                                  (* `if preview.is_empty() { continue; }` *)
+  | [] => (w1, snd st)
   | _ => (w1, snd st ++ [{| df_preview := pv; df_info := i |}])
   end.
+
+Definition pump_unfixed (cap plimit : N) (chunks : list bytes) : lw * list dframe :=
+  fold_left (pump_step_unfixed plimit) chunks (lw_new cap, []).
+
+(* every appended chunk gets its frame (`if preview.is_empty() && artifacts.is_none() { continue; }`;
+   appends do not fail in the model) *)
+Definition pump_step (plimit : N) (st : lw * list dframe) (chunk : bytes) : lw * list dframe :=
+  let '(w1, i) := lw_append (fst st) chunk in
+  let '(pv, _, _) := truncate_utf8 chunk (N.min plimit OUTPUT_EVENT_MAX_BYTES) in
+  (w1, snd st ++ [{| df_preview := pv; df_info := i |}]).
 
 Definition pump (cap plimit : N) (chunks : list bytes) : lw * list dframe :=
   fold_left (pump_step plimit) chunks (lw_new cap, []).
@@ -194,12 +230,16 @@ Record capture := {
   cp_artifact : option artifact; cp_blob : bytes     (* cp_blob: content of the blob named by the id *)
 }.
 
+(* the preview limit may fall inside a character: the preview ends with the last complete one (S19) *)
+Definition shell_preview (prev : bytes) (truncated : bool) : bytes :=
+  if truncated then take (nlen prev - incomplete_tail prev) prev else prev.
+
 Section WithHash.
   Variable H : bytes -> N.            (* the content hash (SHA-256 in the code) *)
 
   Definition cs_finish (pmax : N) (s : cs) : capture :=
     let truncated := pmax <? cs_total s in
-    let '(text, _, used) := truncate_utf8 (cs_prev s) pmax in
+    let '(text, _, used) := truncate_utf8 (shell_preview (cs_prev s) truncated) pmax in
     let art := if negb truncated then None
                else match cs_file s with
                     | None => None
